@@ -311,7 +311,7 @@ func (w *world) subscribe(topic, channel string, rdy int) *client {
 	return cl
 }
 
-const huge = int64(math.MaxInt64)
+const huge = int64(1) << 62 // later than any deadline used here; not MaxInt64, so that t+k in a mutated scan cannot wrap
 
 // --- REQ
 func (w *world) req(sp []byte) (outcome int, t0, t1, pri int64) {
@@ -521,6 +521,96 @@ func (w *world) msgTimeout(o *lib.Out, r *lib.Rand, name string, v int64, in map
 		Input: in, Tags: tags, Nontrivial: true, Obs: map[string]interface{}{"accepted": accepted, "effective_ns": effective}})
 }
 
+// ---------------------------------------------------------------- wall clock, real ticker
+// A daemon with the default 100 ms scan interval; client-side timestamps only.
+func wallClock(o *lib.Out, kinds []string) {
+	opts := nsqdlib.NewOpts(nsqdlib.ScratchDir())
+	// default scan interval (100 ms); the list of channels the scan loop draws from is
+	// refreshed every 100 ms instead of 5 s, otherwise a channel created just now is not
+	// scanned at all for up to 5 s (measured: all three checks then arrive ~5 s late)
+	opts.QueueScanRefreshInterval = 100 * time.Millisecond
+	n, err := nsqdlib.Start(opts)
+	if err != nil {
+		lib.Fatalf("nsqd start: %v", err)
+	}
+	defer n.Exit()
+	w := &world{n: n, tcp: n.RealTCPAddr().String(), http: n.RealHTTPAddr().String()}
+	for k, kind := range kinds {
+		tn := fmt.Sprintf("wall%d", k)
+		topic := n.GetTopic(tn)
+		ch := topic.GetChannel("c")
+		var delay time.Duration
+		var tStart, tRecv int64
+		switch kind {
+		case "req":
+			delay = 150 * time.Millisecond
+			cl := w.subscribe(tn, "c", 1)
+			ch.PutMessage(nsqd.NewMessage(topic.GenerateID(), []byte("m")))
+			id, err := cl.message()
+			if err != nil {
+				lib.Fatalf("wall req: %v", err)
+			}
+			tStart = time.Now().UnixNano()
+			cl.send([]byte(fmt.Sprintf("REQ %s %d\n", id, delay/time.Millisecond)))
+			if _, err := cl.message(); err != nil {
+				lib.Fatalf("wall req: redelivery: %v", err)
+			}
+			tRecv = time.Now().UnixNano()
+			cl.c.Close()
+		case "dpub":
+			delay = 200 * time.Millisecond
+			cl := w.subscribe(tn, "c", 1)
+			pub := dial(w.tcp)
+			var b bytes.Buffer
+			fmt.Fprintf(&b, "DPUB %s %d\n", tn, delay/time.Millisecond)
+			binary.Write(&b, binary.BigEndian, int32(1))
+			b.WriteString("x")
+			tStart = time.Now().UnixNano()
+			pub.send(b.Bytes())
+			if _, err := cl.message(); err != nil {
+				lib.Fatalf("wall dpub: %v", err)
+			}
+			tRecv = time.Now().UnixNano()
+			cl.c.Close()
+			pub.c.Close()
+		case "msg_timeout":
+			delay = 1000 * time.Millisecond
+			cl := dial(w.tcp)
+			body := []byte(`{"msg_timeout":1000}`)
+			var b bytes.Buffer
+			b.WriteString("IDENTIFY\n")
+			binary.Write(&b, binary.BigEndian, int32(len(body)))
+			b.Write(body)
+			cl.send(b.Bytes())
+			if ft, data, err := cl.reply(); err != nil || ft != 0 {
+				lib.Fatalf("wall identify: %v %q", err, data)
+			}
+			cl.send([]byte(fmt.Sprintf("SUB %s c\n", tn)))
+			if ft, data, err := cl.reply(); err != nil || ft != 0 {
+				lib.Fatalf("wall sub: %v %q", err, data)
+			}
+			cl.send([]byte("RDY 1\n"))
+			// the delivery cannot happen before the publish
+			tStart = time.Now().UnixNano()
+			ch.PutMessage(nsqd.NewMessage(topic.GenerateID(), []byte("m")))
+			if _, err := cl.message(); err != nil {
+				lib.Fatalf("wall msg_timeout: %v", err)
+			}
+			// no FIN: it must come back after the timeout (RDY 1 is free again once it timed out)
+			if _, err := cl.message(); err != nil {
+				lib.Fatalf("wall msg_timeout: redelivery: %v", err)
+			}
+			tRecv = time.Now().UnixNano()
+			cl.c.Close()
+		}
+		o.Emit(lib.Case{Name: fmt.Sprintf("wall-%d-%s", k, kind),
+			Coq:   fmt.Sprintf("(J04.Wall %d %s %s)", int64(delay), z(tStart), z(tRecv)),
+			Input: map[string]interface{}{"kind": "wall", "what": kind},
+			Tags:  []string{"kind=wall-clock-" + kind}, Nontrivial: true,
+			Obs:   map[string]interface{}{"delay_ns": int64(delay), "observed_ns": tRecv - tStart, "late_by_ns": tRecv - tStart - int64(delay)}})
+	}
+}
+
 // ---------------------------------------------------------------- cases
 
 type NumIn struct {
@@ -532,6 +622,7 @@ type NumIn struct {
 	B64      string `json:"spelling_b64,omitempty"`
 	V        int64  `json:"v,omitempty"`
 	Class    string `json:"class,omitempty"`
+	What     string `json:"what,omitempty"` // kind "wall"
 }
 
 func (in NumIn) bytes() []byte {
@@ -673,6 +764,7 @@ func main() {
 	seed := flag.Uint64("seed", 1, "seed")
 	out := flag.String("out", "", "output jsonl")
 	replay := flag.String("replay", "", "replay file")
+	wall := flag.Int("wall", 1, "rounds of the wall-clock checks with the real ticker (REQ 150 ms, DPUB 200 ms, msg_timeout 1 s)")
 	flag.Parse()
 	o := lib.NewOut(*out)
 	defer o.Close()
@@ -695,10 +787,24 @@ func main() {
 		var ins []NumIn
 		lib.ReadReplay(*replay, &ins)
 		for k, in := range ins {
+			if in.Kind == "wall" {
+				wallClock(o, []string{in.What})
+				continue
+			}
 			runOne(o, r, ws, fmt.Sprintf("replay-%d-%s", k, in.Path), in)
 		}
 		return
 	}
+
+	// end to end with the real ticker, concurrently with everything below
+	wallDone := make(chan struct{})
+	go func() {
+		defer close(wallDone)
+		for k := 0; k < *wall; k++ {
+			wallClock(o, []string{"req", "dpub", "msg_timeout"})
+		}
+	}()
+	defer func() { <-wallDone }()
 
 	live := []string{"req", "dpub", "http", "rdy"}
 	count := 0
